@@ -8,6 +8,7 @@ fp("dask/array/rechunk.py", "cumdims_label", "_breakpoints", "_intersect_1d", "o
    "find_split_rechunk", "estimate_graph_size", "_compute_rechunk", "_balance_chunksizes")
 fp("dask/array/creation.py", "arange", "linspace", "eye", "diag", "diagonal", "tri", "indices", "meshgrid", "fromfunction")
 fp("dask/array/chunk.py", "arange", "linspace")
+fp("dask/array/chunk.py", "arange_block", "linspace_block")   # C34: the per-block functions since the arange/linspace repairs
 fp("dask/array/wrap.py", "_parse_wrap_args", "wrap_func_shape_as_first_arg", "wrap_func_like", "full", "full_like")
 fp("dask/array/reshape.py", "reshape_rechunk", "_calc_lower_dimension_chunks", "_smooth_chunks", "_cal_max_chunk_size",
    "expand_tuple", "contract_tuple", "reshape")
